@@ -133,13 +133,32 @@ impl ObsB {
     }
 }
 
+/// one entry per public output-producing method of the object: (method name, its result)
+struct Parts(Vec<(&'static str, Result<ObsB, Failed>)>);
+
+impl From<Result<ObsB, Failed>> for Parts {
+    fn from(r: Result<ObsB, Failed>) -> Parts {
+        Parts(vec![("main", r)])
+    }
+}
+
+impl From<Vec<(&'static str, Result<ObsB, Failed>)>> for Parts {
+    fn from(v: Vec<(&'static str, Result<ObsB, Failed>)>) -> Parts {
+        Parts(v)
+    }
+}
+
 /// largest s <= 16 with max|v| * 2^s <= 2^29 (so that differences of two fixed-point values
 /// stay inside TLC's 32-bit integers)
-fn scale_for(o: &ObsB) -> i32 {
+fn scale_for(ps: &Parts) -> i32 {
     let mut mx = 0.0f64;
-    for v in &o.c {
-        if v.is_finite() && v.abs() > mx {
-            mx = v.abs();
+    for (_, r) in &ps.0 {
+        if let Ok(o) = r {
+            for v in &o.c {
+                if v.is_finite() && v.abs() > mx {
+                    mx = v.abs();
+                }
+            }
         }
     }
     let mut s = 16;
@@ -149,13 +168,13 @@ fn scale_for(o: &ObsB) -> i32 {
     s
 }
 
-type ObsR = Result<Result<ObsB, Failed>, String>;
+/// Ok(parts) | Err(panic message of the observation as a whole)
+type ObsR = Result<Parts, String>;
 
-fn obs_value(r: &ObsR, s: i32) -> Value {
+fn part_value(name: &str, r: &Result<ObsB, Failed>, s: i32) -> Value {
     match r {
-        Ok(Ok(o)) => {
-            let mut fin = true;
-            let (mut dh, mut dl, mut ch, mut cl, mut cfx) = (vec![], vec![], vec![], vec![], vec![]);
+        Ok(o) => {
+            let (mut dh, mut dl, mut ch, mut cl, mut cfx, mut cok) = (vec![], vec![], vec![], vec![], vec![], vec![]);
             for v in &o.d {
                 let (h, l) = halves(*v);
                 dh.push(h);
@@ -167,17 +186,27 @@ fn obs_value(r: &ObsR, s: i32) -> Value {
                 cl.push(l);
                 let q = (*v * (2.0f64).powi(s)).round();
                 if !v.is_finite() || q.abs() > 1_073_741_824.0 {
-                    fin = false;
+                    cok.push(false);
                     cfx.push(0i64);
                 } else {
+                    cok.push(true);
                     cfx.push(q as i64);
                 }
             }
-            json!({"status": "ok", "shape": [o.shape.0, o.shape.1], "dh": dh, "dl": dl,
-                   "ch": ch, "cl": cl, "cfx": cfx, "fin": fin, "s": s})
+            json!({"name": name, "status": "ok", "shape": [o.shape.0, o.shape.1], "dh": dh, "dl": dl,
+                   "ch": ch, "cl": cl, "cfx": cfx, "cok": cok})
         }
-        Ok(Err(_)) => json!({"status": "err", "shape": [0, 0], "dh": [], "dl": [], "ch": [], "cl": [], "cfx": [], "fin": true, "s": s}),
-        Err(_) => json!({"status": "panic", "shape": [0, 0], "dh": [], "dl": [], "ch": [], "cl": [], "cfx": [], "fin": true, "s": s}),
+        Err(_) => json!({"name": name, "status": "err", "shape": [0, 0], "dh": [], "dl": [], "ch": [], "cl": [], "cfx": [], "cok": []}),
+    }
+}
+
+fn obs_value(r: &ObsR, s: i32) -> Value {
+    match r {
+        Ok(ps) => {
+            let parts: Vec<Value> = ps.0.iter().map(|(n, r)| part_value(n, r, s)).collect();
+            json!({"status": "ok", "s": s, "parts": parts})
+        }
+        Err(_) => json!({"status": "panic", "s": s, "parts": []}),
     }
 }
 
@@ -444,16 +473,17 @@ fn json_permuted(v: &Value) -> String {
     }
 }
 
-fn history<O, OBS>(cx: &mut Cx, meta: &Meta, a: &O, d: &Data, alts: Vec<Alt<O>>, observe: &OBS, eq: Option<fn(&O, &O) -> bool>)
+fn history<O, OBS, P>(cx: &mut Cx, meta: &Meta, a: &O, d: &Data, alts: Vec<Alt<O>>, observe: &OBS, eq: Option<fn(&O, &O) -> bool>)
 where
     O: Serialize + DeserializeOwned,
-    OBS: Fn(&O, &Data) -> Result<ObsB, Failed>,
+    OBS: Fn(&O, &Data) -> P,
+    P: Into<Parts>,
 {
     cx.run += 1;
     let run = cx.run;
-    let base: ObsR = guard(|| observe(a, d));
+    let base: ObsR = guard(|| observe(a, d).into());
     let s = match &base {
-        Ok(Ok(o)) => scale_for(o),
+        Ok(ps) => scale_for(ps),
         _ => 16,
     };
     let dg = state_digest(a);
@@ -502,7 +532,7 @@ where
         if let Some(r) = restored {
             match &r {
                 Ok(Ok(b)) => {
-                    let ob: ObsR = guard(|| observe(b, d));
+                    let ob: ObsR = guard(|| observe(b, d).into());
                     let dg2 = state_digest(b);
                     cx.out.emit(json!({"run": run, "ev": "De", "fmt": fmt, "status": "ok", "obs": obs_value(&ob, s),
                         "digok": dg2.is_some(), "dig": dig_json(dg2.unwrap_or(0))}));
@@ -527,7 +557,7 @@ where
     }
     for alt in alts {
         let ob: ObsR = match &alt.obj {
-            Ok(Ok(b)) => guard(|| observe(b, d)),
+            Ok(Ok(b)) => guard(|| observe(b, d).into()),
             _ => Err("no object".to_string()),
         };
         cx.out.emit(json!({"run": run, "ev": "Alt", "role": alt.role, "how": alt.how, "status": status3(&alt.obj),
@@ -543,11 +573,12 @@ where
 }
 
 /// fit on `reps` random data sets of kind `kind` and record one history per fitted object
-fn drive<O, FIT, OBS>(cx: &mut Cx, stream: u64, reps: usize, meta: Meta, kind: Kind, p_fixed: Option<usize>, fit: FIT, observe: OBS, eq: Option<fn(&O, &O) -> bool>)
+fn drive<O, FIT, OBS, P>(cx: &mut Cx, stream: u64, reps: usize, meta: Meta, kind: Kind, p_fixed: Option<usize>, fit: FIT, observe: OBS, eq: Option<fn(&O, &O) -> bool>)
 where
     O: Serialize + DeserializeOwned,
     FIT: Fn(&Data) -> Result<O, Failed>,
-    OBS: Fn(&O, &Data) -> Result<ObsB, Failed>,
+    OBS: Fn(&O, &Data) -> P,
+    P: Into<Parts>,
 {
     let mut rng = rng(1900 + stream);
     for _ in 0..reps {
@@ -597,6 +628,24 @@ fn m32(ty: &'static str, cfg: &str, det: bool, sup: bool) -> Meta {
 }
 
 // observation helpers -------------------------------------------------------------------------
+
+type PartList = Vec<(&'static str, Result<ObsB, Failed>)>;
+
+fn counts(v: &[usize]) -> ObsB {
+    ObsB::disc(v.iter().map(|x| *x as f64).collect())
+}
+fn counts2(v: &[Vec<usize>]) -> ObsB {
+    ObsB::disc(v.iter().flat_map(|r| r.iter().map(|x| *x as f64)).collect())
+}
+fn counts3(v: &[Vec<Vec<usize>>]) -> ObsB {
+    ObsB::disc(v.iter().flat_map(|r| r.iter().flat_map(|q| q.iter().map(|x| *x as f64))).collect())
+}
+fn vals2(v: &[Vec<f64>]) -> ObsB {
+    ObsB::cont(v.iter().flat_map(|r| r.iter().cloned()).collect())
+}
+fn vals3(v: &[Vec<Vec<f64>>]) -> ObsB {
+    ObsB::cont(v.iter().flat_map(|r| r.iter().flat_map(|q| q.iter().cloned())).collect())
+}
 
 fn search_obs<'a, F>(d: &Data, find: F) -> Result<ObsB, Failed>
 where
@@ -656,32 +705,38 @@ fn gen_models(path: &str) {
         let sv = solver.clone();
         drive(cx, next(), reps, m("LinearRegression", name, true, true), Kind::Reg, None,
             move |d: &Data| LinearRegression::fit(&mat::<f64>(&d.x), &d.y, LinearRegressionParameters { solver: sv.clone() }),
-            |o: &LinearRegression<f64, M64>, d: &Data| o.predict(&mat(&d.q)).map(ObsB::cont),
+            |o: &LinearRegression<f64, M64>, d: &Data| -> PartList { vec![("predict", o.predict(&mat(&d.q)).map(ObsB::cont)),
+                ("coefficients", Ok(mat_obs(o.coefficients()))), ("intercept", Ok(ObsB::cont(vec![o.intercept()])))] },
             Some(|a, b| a == b));
     }
     drive(cx, next(), reps, m32("LinearRegression", "qr-f32", true, true), Kind::Reg, None,
         |d: &Data| LinearRegression::fit(&mat::<f32>(&d.x), &vecf::<f32>(&d.y), LinearRegressionParameters { solver: LinearRegressionSolverName::QR }),
-        |o: &LinearRegression<f32, M32>, d: &Data| o.predict(&mat(&d.q)).map(|v| ObsB::cont(wide(&v))),
+        |o: &LinearRegression<f32, M32>, d: &Data| -> PartList { vec![("predict", o.predict(&mat(&d.q)).map(|v| ObsB::cont(wide(&v)))),
+            ("coefficients", Ok(mat_obs(o.coefficients()))), ("intercept", Ok(ObsB::cont(vec![o.intercept() as f64])))] },
         Some(|a, b| a == b));
     for (name, solver, norm) in [("cholesky-norm", RidgeRegressionSolverName::Cholesky, true), ("svd-raw", RidgeRegressionSolverName::SVD, false)] {
         let sv = solver.clone();
         drive(cx, next(), reps, m("RidgeRegression", name, true, true), Kind::Reg, None,
             move |d: &Data| RidgeRegression::fit(&mat::<f64>(&d.x), &d.y, RidgeRegressionParameters { solver: sv.clone(), alpha: 0.5, normalize: norm }),
-            |o: &RidgeRegression<f64, M64>, d: &Data| o.predict(&mat(&d.q)).map(ObsB::cont),
+            |o: &RidgeRegression<f64, M64>, d: &Data| -> PartList { vec![("predict", o.predict(&mat(&d.q)).map(ObsB::cont)),
+                ("coefficients", Ok(mat_obs(o.coefficients()))), ("intercept", Ok(ObsB::cont(vec![o.intercept()])))] },
             Some(|a, b| a == b));
     }
     drive(cx, next(), reps, m("Lasso", "alpha=0.5", true, true), Kind::Reg, None,
         |d: &Data| Lasso::fit(&mat::<f64>(&d.x), &d.y, LassoParameters::default().with_alpha(0.5)),
-        |o: &Lasso<f64, M64>, d: &Data| o.predict(&mat(&d.q)).map(ObsB::cont),
+        |o: &Lasso<f64, M64>, d: &Data| -> PartList { vec![("predict", o.predict(&mat(&d.q)).map(ObsB::cont)),
+                ("coefficients", Ok(mat_obs(o.coefficients()))), ("intercept", Ok(ObsB::cont(vec![o.intercept()])))] },
         Some(|a, b| a == b));
     drive(cx, next(), reps, m("ElasticNet", "alpha=0.5,l1=0.5", true, true), Kind::Reg, None,
         |d: &Data| ElasticNet::fit(&mat::<f64>(&d.x), &d.y, ElasticNetParameters::default().with_alpha(0.5).with_l1_ratio(0.5)),
-        |o: &ElasticNet<f64, M64>, d: &Data| o.predict(&mat(&d.q)).map(ObsB::cont),
+        |o: &ElasticNet<f64, M64>, d: &Data| -> PartList { vec![("predict", o.predict(&mat(&d.q)).map(ObsB::cont)),
+                ("coefficients", Ok(mat_obs(o.coefficients()))), ("intercept", Ok(ObsB::cont(vec![o.intercept()])))] },
         Some(|a, b| a == b));
     for (name, kind) in [("binary", Kind::Cls2), ("multiclass", Kind::Cls3)] {
         drive(cx, next(), reps, m("LogisticRegression", name, true, true), kind, None,
             |d: &Data| LogisticRegression::fit(&mat::<f64>(&d.x), &d.y, Default::default()),
-            |o: &LogisticRegression<f64, M64>, d: &Data| o.predict(&mat(&d.q)).map(ObsB::disc),
+            |o: &LogisticRegression<f64, M64>, d: &Data| -> PartList { vec![("predict", o.predict(&mat(&d.q)).map(ObsB::disc)),
+                ("coefficients", Ok(mat_obs(o.coefficients()))), ("intercept", Ok(mat_obs(o.intercept())))] },
             Some(|a, b| a == b));
     }
 
@@ -727,41 +782,53 @@ fn gen_models(path: &str) {
         drive(cx, next(), reps, m("RandomForestClassifier", if keep { "keep-samples" } else { "default" }, true, true), Kind::Cls3, None,
             move |d: &Data| RandomForestClassifier::fit(&mat::<f64>(&d.x), &d.y,
                 RandomForestClassifierParameters { criterion: SplitCriterion::Gini, max_depth: None, min_samples_leaf: 1, min_samples_split: 2,
-                    n_trees: 5, m: None, keep_samples: keep, seed: 17 + d.x.len() as u64 }),
-            |o: &RandomForestClassifier<f64>, d: &Data| o.predict(&mat::<f64>(&d.q)).map(ObsB::disc),
+                    n_trees: if keep { 12 } else { 5 }, m: None, keep_samples: keep, seed: 17 + d.x.len() as u64 }),
+            |o: &RandomForestClassifier<f64>, d: &Data| -> PartList { vec![("predict", o.predict(&mat::<f64>(&d.q)).map(ObsB::disc)),
+                // out-of-bag predictions on the training matrix (refused unless keep_samples was set)
+                ("predict_oob", o.predict_oob(&mat::<f64>(&d.x)).map(ObsB::disc))] },
             Some(|a, b| a == b));
         drive(cx, next(), reps, m("RandomForestRegressor", if keep { "keep-samples" } else { "default" }, true, true), Kind::Reg, None,
             move |d: &Data| RandomForestRegressor::fit(&mat::<f64>(&d.x), &d.y,
                 RandomForestRegressorParameters { max_depth: None, min_samples_leaf: 1, min_samples_split: 2,
-                    n_trees: 5, m: None, keep_samples: keep, seed: 23 + d.x.len() as u64 }),
-            |o: &RandomForestRegressor<f64>, d: &Data| o.predict(&mat::<f64>(&d.q)).map(ObsB::cont),
+                    n_trees: if keep { 12 } else { 5 }, m: None, keep_samples: keep, seed: 23 + d.x.len() as u64 }),
+            |o: &RandomForestRegressor<f64>, d: &Data| -> PartList { vec![("predict", o.predict(&mat::<f64>(&d.q)).map(ObsB::cont)),
+                ("predict_oob", o.predict_oob(&mat::<f64>(&d.x)).map(ObsB::cont))] },
             Some(|a, b| a == b));
     }
 
     // ---- naive Bayes -------------------------------------------------------------------------
     drive(cx, next(), reps, m("GaussianNB", "default", true, true), Kind::Cls3, None,
         |d: &Data| GaussianNB::fit(&mat::<f64>(&d.x), &d.y, Default::default()),
-        |o: &GaussianNB<f64, M64>, d: &Data| o.predict(&mat(&d.q)).map(ObsB::disc),
+        |o: &GaussianNB<f64, M64>, d: &Data| -> PartList { vec![("predict", o.predict(&mat(&d.q)).map(ObsB::disc)),
+            ("classes", Ok(ObsB::disc(o.classes().clone()))), ("class_count", Ok(counts(o.class_count()))),
+            ("class_priors", Ok(ObsB::cont(o.class_priors().clone()))), ("theta", Ok(vals2(o.theta()))), ("var", Ok(vals2(o.var())))] },
         Some(|a, b| a == b));
     drive(cx, next(), reps, m("BernoulliNB", "alpha=1", true, true), Kind::Bin, None,
         |d: &Data| BernoulliNB::fit(&mat::<f64>(&d.x), &d.y, BernoulliNBParameters::default()),
-        |o: &BernoulliNB<f64, M64>, d: &Data| o.predict(&mat(&d.q)).map(ObsB::disc),
+        |o: &BernoulliNB<f64, M64>, d: &Data| -> PartList { vec![("predict", o.predict(&mat(&d.q)).map(ObsB::disc)),
+            ("classes", Ok(ObsB::disc(o.classes().clone()))), ("class_count", Ok(counts(o.class_count()))),
+            ("n_features", Ok(counts(&[o.n_features()]))), ("feature_count", Ok(counts2(o.feature_count()))),
+            ("feature_log_prob", Ok(vals2(o.feature_log_prob())))] },
         Some(|a, b| a == b));
     drive(cx, next(), reps, m("MultinomialNB", "alpha=1", true, true), Kind::Cnt, None,
         |d: &Data| MultinomialNB::fit(&mat::<f64>(&d.x), &d.y, MultinomialNBParameters::default()),
-        |o: &MultinomialNB<f64, M64>, d: &Data| o.predict(&mat(&d.q)).map(ObsB::disc),
+        |o: &MultinomialNB<f64, M64>, d: &Data| -> PartList { vec![("predict", o.predict(&mat(&d.q)).map(ObsB::disc)),
+            ("classes", Ok(ObsB::disc(o.classes().clone()))), ("class_count", Ok(counts(o.class_count()))),
+            ("n_features", Ok(counts(&[o.n_features()]))), ("feature_count", Ok(counts2(o.feature_count()))),
+            ("feature_log_prob", Ok(vals2(o.feature_log_prob())))] },
         Some(|a, b| a == b));
     drive(cx, next(), reps, m("CategoricalNB", "alpha=1", true, true), Kind::Cat, None,
         |d: &Data| CategoricalNB::fit(&mat::<f64>(&d.x), &d.y, CategoricalNBParameters::default()),
-        |o: &CategoricalNB<f64, M64>, d: &Data| o.predict(&mat(&d.q)).map(ObsB::disc),
+        |o: &CategoricalNB<f64, M64>, d: &Data| -> PartList { vec![("predict", o.predict(&mat(&d.q)).map(ObsB::disc)),
+            ("classes", Ok(ObsB::disc(o.classes().clone()))), ("class_count", Ok(counts(o.class_count()))),
+            ("n_features", Ok(counts(&[o.n_features()]))), ("n_categories", Ok(counts(o.n_categories()))),
+            ("category_count", Ok(counts3(o.category_count()))), ("feature_log_prob", Ok(vals3(o.feature_log_prob())))] },
         Some(|a, b| a == b));
 
     // ---- support vector machines, each kernel --------------------------------------------------
-    fn svc_obs<K: Kernel<f64, Vec<f64>>>(o: &SVC<f64, M64, K>, d: &Data) -> Result<ObsB, Failed> {
+    fn svc_obs<K: Kernel<f64, Vec<f64>>>(o: &SVC<f64, M64, K>, d: &Data) -> PartList {
         let q = mat::<f64>(&d.q);
-        let p = o.predict(&q)?;
-        let f = o.decision_function(&q)?;
-        Ok(ObsB { shape: (p.len(), 2), d: p, c: f })
+        vec![("predict", o.predict(&q).map(ObsB::disc)), ("decision_function", o.decision_function(&q).map(ObsB::cont))]
     }
     drive(cx, next(), reps, m("SVC", "linear", false, true), Kind::Cls2, None,
         |d: &Data| SVC::fit(&mat::<f64>(&d.x), &d.y, SVCParameters::default().with_c(1.0)),
@@ -807,17 +874,17 @@ fn gen_models(path: &str) {
     for (name, corr, nc) in [("cov-k1", false, 1usize), ("cov-k2", false, 2usize), ("corr-k2", true, 2usize)] {
         drive(cx, next(), reps, m("PCA", name, true, false), Kind::Blob, None,
             move |d: &Data| PCA::fit(&mat::<f64>(&d.x), PCAParameters::default().with_n_components(nc).with_use_correlation_matrix(corr)),
-            |o: &PCA<f64, M64>, d: &Data| o.transform(&mat(&d.q)).map(|t| mat_obs(&t)),
+            |o: &PCA<f64, M64>, d: &Data| -> PartList { vec![("transform", o.transform(&mat(&d.q)).map(|t| mat_obs(&t))), ("components", Ok(mat_obs(o.components())))] },
             Some(|a, b| a == b));
     }
     drive(cx, next(), reps, m("PCA", "cov-k2-reg", true, false), Kind::Reg, Some(3),
         |d: &Data| PCA::fit(&mat::<f64>(&d.x), PCAParameters::default().with_n_components(2)),
-        |o: &PCA<f64, M64>, d: &Data| o.transform(&mat(&d.q)).map(|t| mat_obs(&t)),
+        |o: &PCA<f64, M64>, d: &Data| -> PartList { vec![("transform", o.transform(&mat(&d.q)).map(|t| mat_obs(&t))), ("components", Ok(mat_obs(o.components())))] },
         Some(|a, b| a == b));
     for nc in [1usize, 2] {
         drive(cx, next(), reps, m("SVD", &format!("k={}", nc), true, false), Kind::Blob, None,
             move |d: &Data| SVD::fit(&mat::<f64>(&d.x), SVDParameters::default().with_n_components(nc)),
-            |o: &SVD<f64, M64>, d: &Data| o.transform(&mat(&d.q)).map(|t| mat_obs(&t)),
+            |o: &SVD<f64, M64>, d: &Data| -> PartList { vec![("transform", o.transform(&mat(&d.q)).map(|t| mat_obs(&t))), ("components", Ok(mat_obs(o.components())))] },
             Some(|a, b| a == b));
     }
 
@@ -852,7 +919,7 @@ fn gen_models(path: &str) {
     }
     drive(cx, next(), reps, m("Mahalanobis", "from-data", true, false), Kind::Reg, None,
         |d: &Data| Ok(Distances::mahalanobis(&mat::<f64>(&d.x))),
-        |o: &Mahalanobis<f64, M64>, d: &Data| dist_obs(o, d), None);
+        |o: &Mahalanobis<f64, M64>, d: &Data| -> PartList { vec![("distance", dist_obs(o, d)), ("sigma", Ok(mat_obs(&o.sigma))), ("sigmaInv", Ok(mat_obs(&o.sigmaInv)))] }, None);
     drive(cx, next(), reps, m("LinearKernel", "-", true, false), Kind::Reg, None, |_d: &Data| Ok(Kernels::linear()),
         |o: &LinearKernel, d: &Data| kernel_obs(o, d), None);
     drive(cx, next(), reps, m("RBFKernel", "gamma=0.3", true, false), Kind::Reg, None, |_d: &Data| Ok(Kernels::rbf(0.3f64)),
